@@ -97,7 +97,7 @@ Attributes: Prefixes (base 10)
 
     Hecto (Prefix): 10 ², symbol `h`
 
-    Deca (Prefix): 10¹, symbol `d`
+    Deca (Prefix): 10¹, symbol `da`
 
     Deci (Prefix): 10⁻¹, symbol `d`
 
@@ -151,7 +151,7 @@ Giga = Prefix(10, 9, name="giga", symbol="G")
 Mega = Prefix(10, 6, name="mega", symbol="M")
 Kilo = Prefix(10, 3, name="kilo", symbol="k")
 Hecto = Prefix(10, 2, name="hecto", symbol="h")
-Deca = Prefix(10, 1, name="deca", symbol="d")
+Deca = Prefix(10, 1, name="deca", symbol="da")
 Deci = Prefix(10, -1, name="deci", symbol="d")
 Centi = Prefix(10, -2, name="centi", symbol="c")
 Milli = Prefix(10, -3, name="milli", symbol="m")
